@@ -165,7 +165,13 @@ def bad_segments(node):
 
 
 def run_case(col, target, log, steps, spelling, rng, fault, k_planted, types):
-    spec = make_spec(rng, steps, spelling)
+    try:
+        spec = make_spec(rng, steps, spelling)
+    except Exception as e:
+        col.case((types, spelling, fault, k_planted), True)
+        col.violation('C01/spec-cannot-be-written:' + spelling, 'building the %s spelling of %s raised %r' % (spelling, short(steps), e),
+                      {'steps': short(steps)})
+        return
     del log[:]
     want = ref_walk(target, steps)
     ref_log = list(log)
